@@ -11,7 +11,7 @@
  * ops     `w32:addr:expect:timeout` `w64:addr:expect:timeout` `n:addr:count` `s:addr:width:value`
  *
  * stdout, per execution (seed/sched: one line; dfs: one line per execution, then `done ...`):
- *   sched=<t,t,...> verdict=<ok|deadlock|crash|...> res=<r.r|r|...> st=<fin|blk|...> map=<null|empty|nonempty> san=<none|kind> detail=<...>
+ *   sched=<t,t,...> verdict=<ok|deadlock|crash|...> res=<r.r|r|...> st=<fin|blk|...> ev=<inv-resp.inv-x|...> map=<null|empty|nonempty> san=<none|kind> detail=<...>
  */
 #include <stdio.h>
 #include <stdlib.h>
@@ -32,7 +32,7 @@ void trap(Trap t) {
 #define MEM_SIZE 65536
 
 typedef struct op { char kind; int w64; U32 addr; U64 expect; I64 timeout; U32 count; int width; U64 value; } op;
-typedef struct thr { int nops; op ops[MAX_OPS]; int ndone; U32 ret[MAX_OPS]; } thr;
+typedef struct thr { int nops; op ops[MAX_OPS]; int ndone; U32 ret[MAX_OPS]; int ninv; int inv[MAX_OPS]; int resp[MAX_OPS]; } thr;
 
 static thr T[MAX_T];
 static int nthr;
@@ -42,7 +42,7 @@ static char init_spec[512];
 
 static int parse_ops(char *s, thr *t) {
     char *save, *p;
-    t->nops = 0; t->ndone = 0;
+    t->nops = 0; t->ndone = 0; t->ninv = 0;
     if (!strcmp(s, "-") || !*s) return 1;
     for (p = strtok_r(s, ",", &save); p; p = strtok_r(NULL, ",", &save)) {
         op *o;
@@ -98,10 +98,13 @@ static void *thread_main(void *arg) {
     for (i = 0; i < t->nops; i++) {
         op *o = &t->ops[i];
         U32 r = 0;
+        t->inv[i] = sched_steps();          /* invocation / response times in scheduler steps (history oracle) */
+        t->ninv = i + 1;
         if (o->kind == 'w') r = wasmMemoryAtomicWait(&mem, o->addr, o->expect, o->timeout, o->w64 ? true : false);
         else if (o->kind == 'n') r = wasmMemoryAtomicNotify(&mem, o->addr, o->count);
         else { sched_point("store", mem.data + o->addr); store_le(o->addr, o->width, o->value); }
         t->ret[i] = r;
+        t->resp[i] = sched_steps();
         t->ndone = i + 1;
     }
     return NULL;
@@ -116,6 +119,14 @@ static void compose_result(void) {
     }
     sched_result(" st=");
     for (i = 0; i < nthr; i++) sched_result("%s%s", i ? "|" : "", T[i].ndone == T[i].nops ? "fin" : "blk");
+    sched_result(" ev=");
+    for (i = 0; i < nthr; i++) {
+        if (i) sched_result("|");
+        for (k = 0; k < T[i].ninv; k++) {
+            if (k < T[i].ndone) sched_result("%s%d-%d", k ? "." : "", T[i].inv[k], T[i].resp[k]);
+            else sched_result("%s%d-x", k ? "." : "", T[i].inv[k]);
+        }
+    }
     if (!mem.futex) sched_result(" map=null");
     else {
         Map *m = (Map *)mem.futex;
